@@ -90,6 +90,7 @@ struct Run {
     files: HashMap<usize, (String, String)>, // provision op index -> (uri of the store, uri of its twin)
     paths: Vec<String>,
     clobbered: bool,   // the harness itself overwrote LAST_ERROR (polling after a close without callback)
+    last_early: bool,   // the most recent error was the order_by rejection that bypasses set_last_error
     last_seen_err: i64, // code of the most recent error reported since the slot was last read
     tag: String,
     twin_keys: HashMap<usize, aries_askar::kms::LocalKey>,
@@ -223,6 +224,10 @@ fn lim_of(op: &Value) -> Option<i64> { let l = op["lim"].as_i64().unwrap_or(-1);
 pub fn exec(case: &Value, _tag: &str) -> Value {
     if case["kind"] == "c19:child" {
         // child side of the null out-pointer probe: the call either returns or kills this process
+        if case["probe"] == "current_error" {
+            let c = unsafe { askar_get_current_error(std::ptr::null_mut()) };
+            return json!({"out": {"returned": code_name(c)}});
+        }
         let seed = ByteBuf { len: 0, data: std::ptr::null() };
         let c = unsafe { askar_store_generate_raw_key(seed, std::ptr::null_mut()) };
         return json!({"out": {"returned": code_name(c)}});
@@ -230,7 +235,7 @@ pub fn exec(case: &Value, _tag: &str) -> Value {
     let mut guard = SERIAL.lock().unwrap_or_else(|e| e.into_inner());
     let mut last = *guard;
     let mut run = Run { slots: vec![], stores: HashMap::new(), sess: HashMap::new(), scans: HashMap::new(), issued: [vec![], vec![], vec![]],
-                        cbs: vec![], oracle: vec![], feat: BTreeMap::new(), twin_ok: true, files: HashMap::new(), paths: vec![], clobbered: false, last_seen_err: 0, tag: _tag.to_string(), twin_keys: HashMap::new() };
+                        cbs: vec![], oracle: vec![], feat: BTreeMap::new(), twin_ok: true, files: HashMap::new(), paths: vec![], clobbered: false, last_early: false, last_seen_err: 0, tag: _tag.to_string(), twin_keys: HashMap::new() };
     let ops = case["ops"].as_array().cloned().unwrap_or_default();
     let mut outs = vec![];
     current_error(); // the last-error slot is process-global: start every case with an empty one
@@ -241,12 +246,15 @@ pub fn exec(case: &Value, _tag: &str) -> Value {
             let name = op["op"].as_str().unwrap_or("");
             let r = o.get("r").and_then(|r| r.as_str()).unwrap_or("");
             let cbe = o.get("cb").and_then(|c| c.get("err")).and_then(|e| e.as_str()).unwrap_or("");
+            let was_early = (name == "fetch_all" || name == "scan_start") && r == "Unsupported";
+            if name == "current_error" || !cbe.is_empty() || (!r.is_empty() && r != "Success") || name == "null_probe" { run.last_early = was_early; }
             let num = |n: &str| -> i64 { match n { "Backend" => 1, "Busy" => 2, "Duplicate" => 3, "Encryption" => 4, "Input" => 5, "NotFound" => 6, "Unexpected" => 7, "Unsupported" => 8, "Custom" => 100, _ => 0 } };
             if name == "current_error" { run.clobbered = false; run.last_seen_err = 0; }
             else if r == "Unexpected" || cbe == "Unexpected" { run.clobbered = false; run.last_seen_err = 0; }
             else if (name == "store_close" && !op["cb"].as_bool().unwrap_or(false)) || name == "key_roundtrip" { run.clobbered = true; }
-            else if name == "null_probe" { run.clobbered = false; run.last_seen_err = 5; }
+            else if name == "null_probe" || ((name == "key_fetch" || name == "key_fetch_all") && o.get("cb").and_then(|c| c.get("keys")).map_or(false, |k| !k.is_null())) { run.clobbered = false; run.last_seen_err = 5; } // the bad-index probes of the harness end with an Input error
             else if !cbe.is_empty() { run.clobbered = false; run.last_seen_err = num(cbe); }
+            else if (name == "fetch_all" || name == "scan_start") && r == "Unsupported" { run.last_seen_err = 8; } // the caller must be able to retrieve it (D33: the unrepaired source returned without set_last_error); a clobbered slot stays undetermined
             else if !r.is_empty() && r != "Success" { run.clobbered = false; run.last_seen_err = num(r); }
         }
         run.feat(&format!("op:{}", op["op"].as_str().unwrap_or("")));
@@ -329,7 +337,15 @@ fn step(run: &mut Run, i: usize, op: &Value, last: &mut [usize; 3]) -> Value {
             match cb {
                 Some(CbVal::Handle(0, h)) => {
                     let ord = run.issued(i, op, 0, h, last);
-                    let twin = block_on(Store::provision(&twin_s, StoreKeyMethod::RawKey, PassKey::from(pass.as_str()), opt_string(&op["profile"]), true)).ok();
+                    // creating a fresh WAL-mode file can fail with SQLITE_BUSY while the pool's first connections race: retry (set-up, not the property)
+                    let mut twin = None;
+                    for attempt in 0..20 {
+                        match block_on(Store::provision(&twin_s, StoreKeyMethod::RawKey, PassKey::from(pass.as_str()), opt_string(&op["profile"]), true)) {
+                            Ok(t) => { twin = Some(t); break; }
+                            Err(_) => std::thread::sleep(Duration::from_millis(10 * (attempt + 1))),
+                        }
+                    }
+                    if twin.is_none() { run.twin_ok = false; }
                     run.stores.insert(h, TStore { twin, open: true });
                     run.files.insert(i, (uri_s.as_str().unwrap_or("").to_string(), twin_s));
                     run.set_slot(i, Slot::Handle(h));
@@ -393,9 +409,10 @@ fn step(run: &mut Run, i: usize, op: &Value, last: &mut [usize; 3]) -> Value {
                 Some(v) => {
                     if let Some(Ok(_)) = twin_res { run.fail(i, op, format!("session_start:rust:ok->ffi:err:{}", code_name(v.code())), json!({})); }
                     if let Some(Err(e)) = &twin_res { if kind_name(e) != code_name(v.code()) { run.fail(i, op, format!("session_start:rust:err:{}->ffi:err:{}", kind_name(e), code_name(v.code())), json!({})); } }
+                    drop_in_rt(twin_res);
                     jret(ret, cberr(v.code()))
                 }
-                None => jret(ret, Value::Null),
+                None => { drop_in_rt(twin_res); jret(ret, Value::Null) }
             }
         }
         "session_close" => {
@@ -540,10 +557,11 @@ fn step(run: &mut Run, i: usize, op: &Value, last: &mut [usize; 3]) -> Value {
                     jret(ret, json!({"h": ord}))
                 }
                 Some(v) => {
-                    if let Some(Ok(_)) = twin_res { run.fail(i, op, format!("scan_start:rust:ok->ffi:err:{}", code_name(v.code())), json!({})); }
+                    if let Some(Ok(_)) = &twin_res { run.fail(i, op, format!("scan_start:rust:ok->ffi:err:{}", code_name(v.code())), json!({})); }
+                    drop_in_rt(twin_res);
                     jret(ret, cberr(v.code()))
                 }
-                None => jret(ret, Value::Null),
+                None => { drop_in_rt(twin_res); jret(ret, Value::Null) }
             }
         }
         "scan_free" => {
@@ -765,7 +783,7 @@ fn step(run: &mut Run, i: usize, op: &Value, last: &mut [usize; 3]) -> Value {
             match cb {
                 Some(CbVal::Handle(0, nh)) => {
                     let ord = run.issued(i, op, 0, nh, last);
-                    if let Some(Err(e)) = &twin_res { run.fail(i, op, format!("store_open:rust:err:{}->ffi:ok", kind_name(e)), json!({})); }
+                    if let Some(Err(e)) = &twin_res { run.fail(i, op, format!("store_open:rust:err:{}->ffi:ok", kind_name(e)), json!({"rust": format!("{:?}", e), "twin": twin_s})); }
                     let cid = new_cb_id();
                     if unsafe { askar_store_close(H(nh), Some(cb_unit), cid) } == 0 { wait_cb(cid, WAIT); }
                     take_count(cid);
@@ -774,7 +792,7 @@ fn step(run: &mut Run, i: usize, op: &Value, last: &mut [usize; 3]) -> Value {
                 Some(v) => {
                     match &twin_res {
                         Some(Ok(())) => run.fail(i, op, format!("store_open:rust:ok->ffi:err:{}", code_name(v.code())), json!({})),
-                        Some(Err(e)) if kind_name(e) != code_name(v.code()) => run.fail(i, op, format!("store_open:rust:err:{}->ffi:{}", kind_name(e), code_name(v.code())), json!({})),
+                        Some(Err(e)) if kind_name(e) != code_name(v.code()) => run.fail(i, op, format!("store_open:rust:err:{}->ffi:{}", kind_name(e), code_name(v.code())), json!({"rust": format!("{:?}", e)})),
                         _ => {}
                     }
                     jret(ret, cberr(v.code()))
@@ -828,7 +846,8 @@ fn step(run: &mut Run, i: usize, op: &Value, last: &mut [usize; 3]) -> Value {
             let code = parsed["code"].as_i64();
             if code.is_none() { run.fail(i, op, "current_error:not-json-with-code".into(), json!({"text": text})); }
             if !run.clobbered && code != Some(run.last_seen_err) {
-                run.fail(i, op, format!("current_error:last-reported-{}->slot-{}", code_name(run.last_seen_err), code_name(code.unwrap_or(-1))), json!({"text": text}));
+                let sig = if run.last_early { "current_error:order_by-Unsupported-not-recorded:slot-stale".to_string() } else { format!("current_error:last-reported-{}->slot-{}", code_name(run.last_seen_err), code_name(code.unwrap_or(-1))) };
+                run.fail(i, op, sig, json!({"text": text, "expected": code_name(run.last_seen_err)}));
             }
             if code.unwrap_or(0) != 0 && !parsed["message"].is_string() { run.fail(i, op, "current_error:no-message".into(), json!({"text": text})); }
             if run.clobbered { json!({"code": "any"}) } else { json!({"code": code}) }
@@ -995,21 +1014,22 @@ fn step(run: &mut Run, i: usize, op: &Value, last: &mut [usize; 3]) -> Value {
         }
         "null_probe" => null_probe(run, i, op),
         "key_roundtrip" => key_roundtrip(run, i, op),
-        "raw_key_null_out" => {
+        "raw_key_null_out" | "current_error_null_out" => {
             // a NULL out-pointer must give an error code; run the call in a child process so that a
             // crash is observed instead of suffered
             use std::io::Write;
             use std::process::{Command, Stdio};
             let exe = std::env::current_exe().expect("current_exe");
             let mut child = Command::new(exe).args(["exec", "--threads", "1"]).stdin(Stdio::piped()).stdout(Stdio::piped()).stderr(Stdio::null()).spawn().expect("spawn child");
-            child.stdin.take().unwrap().write_all(b"{\"id\":0,\"kind\":\"c19:child\"}\n").ok();
+            let which = if name == "raw_key_null_out" { "askar_store_generate_raw_key" } else { "askar_get_current_error" };
+            child.stdin.take().unwrap().write_all(if name == "raw_key_null_out" { b"{\"id\":0,\"kind\":\"c19:child\"}\n".as_slice() } else { b"{\"id\":0,\"kind\":\"c19:child\",\"probe\":\"current_error\"}\n".as_slice() }).ok();
             let out = child.wait_with_output().expect("child");
             let crashed = !out.status.success();
             if crashed {
                 use std::os::unix::process::ExitStatusExt;
-                run.fail(i, op, "crash:askar_store_generate_raw_key:null-out-pointer".to_string(), json!({"signal": out.status.signal(), "status": format!("{:?}", out.status)}));
+                run.fail(i, op, format!("crash:{}:null-out-pointer", which), json!({"signal": out.status.signal(), "status": format!("{:?}", out.status)}));
             } else if String::from_utf8_lossy(&out.stdout).contains("\"Success\"") {
-                run.fail(i, op, "generate_raw_key:null-out->Success".into(), json!({}));
+                run.fail(i, op, format!("{}:null-out->Success", which), json!({}));
             }
             json!({"crash": crashed})
         }
